@@ -178,7 +178,7 @@ func TestC29(t *testing.T) {
 			}
 			li := rng.IntN(len(ok))
 			rotate()
-			script, err := GenScriptV(rng, ok[li], p, s, tab, 2, ops, tr, virt, ncopy)
+			script, err := GenScriptV(rng, ok[li], p, s, tab, 2, ops, tr, virt, ncopy, 1)
 			if err != nil {
 				fmt.Printf("DRIVER-FAIL leader %s: %v\n", ok[li].Name, err)
 				tr.Emit(Ev{"op": "fail", "err": err.Error()})
